@@ -16,13 +16,22 @@ enum { M_ADD_M = 0, M_SUB_M, M_ADD_S, M_SUB_S, M_MUL_S, M_DIV_S, M_MOD_S, M_IADD
 #ifndef MB
 #define MB 127
 #endif
+#ifndef VB
+#define VB 127 /* entry / component bound for M*v */
+#endif
 #ifndef GROUP
 #define GROUP 0
 #endif
 #define U(p) ((uint32_t*)(p))
 static int fits32(int64_t v) { return v >= -2147483648LL && v <= 2147483647LL; }
 static void in_mat_full(int32_t* m) { for (int i = 0; i < 16; i++) m[i] = in_i32(); }
-static void in_mat_small(int32_t* m, int64_t bnd) { for (int i = 0; i < 16; i++) m[i] = (int32_t)in_irange(-bnd, bnd); }
+#ifdef NNBITS
+/* structurally narrow non-negative operands: value = input & (2^NNBITS - 1) (cheap for the bit-level solver); bnd is then only an upper bound */
+static int32_t in_small(int64_t bnd) { int32_t v = (int32_t)(in_u64() & ((1ULL << NNBITS) - 1)); ASSUME(v <= bnd); return v; }
+#else
+static int32_t in_small(int64_t bnd) { return (int32_t)in_irange(-bnd, bnd); }
+#endif
+static void in_mat_small(int32_t* m, int64_t bnd) { for (int i = 0; i < 16; i++) m[i] = in_small(bnd); }
 
 void harness(void) {
   int32_t A[16], B[16], R[16], R2[16], v[4], o1[4], o2[4];
@@ -30,11 +39,11 @@ void harness(void) {
   /* default constructor = identity; M*v = definition (entries and vector bounded so that the exact sums fit int32) */
   ASSERT(w_m4_identity(U(R)) == 0, "Matrix4() does not throw");
   for (int c = 0; c < 4; c++) for (int r = 0; r < 4; r++) ASSERT(R[4 * c + r] == (c == r), "Matrix4() is the identity");
-  in_mat_small(A, 16383);
-  for (int i = 0; i < 4; i++) v[i] = (int32_t)in_irange(-16383, 16383);
+  in_mat_small(A, VB);
+  for (int i = 0; i < 4; i++) v[i] = in_small(VB);
   ASSERT(w_m4_mulv(U(A), U(v), U(o1)) == 0, "M*v does not throw");
   for (int r = 0; r < 4; r++) {
-    int32_t s = 0; /* exact: |terms| < 2^28 */
+    int32_t s = 0; /* exact for VB <= 16383: |terms| < 2^28 */
     for (int c = 0; c < 4; c++) s += A[4 * c + r] * v[c];
     OBS(o1[r]);
     ASSERT(o1[r] == s, "(M v)_r == sum_c m[c][r] v_c");
@@ -63,26 +72,25 @@ void harness(void) {
   in_mat_small(A, EB); in_mat_small(B, EB);
   uint32_t ip = in_bool();
   ASSERT(w_m4_mulm(U(A), U(B), ip, U(R)) == 0, "A*B does not throw");
-  /* one symbolic element (c, r) is compared (every element, one at a time) */
-  uint64_t c = in_range(0, 3), r = in_range(0, 3);
-  int32_t s = 0;
-  for (int z = 0; z < 4; z++) s += A[4 * z + r] * B[4 * c + z];
-  OBS(R[4 * c + r]);
-  ASSERT(R[4 * c + r] == s, "(A B)[c][r] == sum_z A[z][r] B[c][z]");
+  for (int c = 0; c < 4; c++) for (int r = 0; r < 4; r++) {
+    int32_t s = 0; /* exact: entries bounded */
+    for (int z = 0; z < 4; z++) s += A[4 * z + r] * B[4 * c + z];
+    OBS(R[4 * c + r]);
+    ASSERT(R[4 * c + r] == s, "(A B)[c][r] == sum_z A[z][r] B[c][z]");
+  }
 #elif MODE == 3
   /* (A B) v == A (B v); entries in [-EB, EB] */
   in_mat_small(A, EB); in_mat_small(B, EB);
-  for (int i = 0; i < 4; i++) v[i] = (int32_t)in_irange(-EB, EB);
+  for (int i = 0; i < 4; i++) v[i] = in_small(EB);
   ASSERT(w_m4_assoc(U(A), U(B), U(v), U(o1), U(o2)) == 0, "products do not throw");
   for (int i = 0; i < 4; i++) { OBS(o1[i]); ASSERT(o1[i] == o2[i], "(A B) v == A (B v)"); }
 #else
-  /* elementwise operators with a matrix or a scalar: one symbolic element checked (every element, one at a time).
+  /* elementwise operators with a matrix or a scalar: every element checked.
    * GROUP 0: + - (every input whose exact result fits int32); GROUP 1/2/3: * / % scalar with operands in [-MB, MB]. */
   in_mat_full(A); in_mat_full(B);
   int32_t s = in_i32();
   uint32_t op;
-  uint64_t k = in_range(0, 15);
-  int32_t ref;
+  int32_t ref[16];
 #if GROUP == 0
   static const uint8_t ops[] = {M_ADD_M, M_SUB_M, M_ADD_S, M_SUB_S, M_IADD_M, M_ISUB_M, M_IADD_S, M_ISUB_S};
   op = ops[in_range(0, sizeof(ops) - 1)];
@@ -95,18 +103,21 @@ void harness(void) {
       default: r = x - s; break;
     }
     ASSUME(fits32(r));
-    if (i == (int)k) ref = (int32_t)r;
+    ref[i] = (int32_t)r;
   }
 #else
   op = (GROUP == 1 ? M_MUL_S : GROUP == 2 ? M_DIV_S : M_MOD_S);
   if (in_bool()) op += M_IMUL_S - M_MUL_S;
+#ifdef NNBITS
+  s = in_small(MB);
+  in_mat_small(A, MB);
+#endif
   ASSUME(s >= -MB && s <= MB);
   if (GROUP != 1) ASSUME(s != 0);
   for (int i = 0; i < 16; i++) ASSUME(A[i] >= -MB && A[i] <= MB);
-  ref = (GROUP == 1) ? A[k] * s : (GROUP == 2) ? A[k] / s : A[k] % s;
+  for (int i = 0; i < 16; i++) ref[i] = (GROUP == 1) ? A[i] * s : (GROUP == 2) ? A[i] / s : A[i] % s;
 #endif
   ASSERT(w_m4_op(op, U(A), U(B), (uint32_t)s, U(R)) == 0, "matrix operator does not throw");
-  OBS(R[k]);
-  ASSERT(R[k] == ref, "matrix operator == elementwise definition");
+  for (int i = 0; i < 16; i++) { OBS(R[i]); ASSERT(R[i] == ref[i], "matrix operator == elementwise definition"); }
 #endif
 }
